@@ -108,11 +108,11 @@
               fmoves + bw_fsteps(self.states@, state_id as int, c) == bw_fsteps(self.states@, s0 as int, c),
     decreases bw_rank(self.states@, false, state_id as int)
 //@}
-//@before 1 return state_id;{
+//@before 1 return{
     // the loop made exactly bw_fsteps fail moves (lemma_moves_from_root: at most 2n transitions over n bytes)
     proof { assert(fmoves == bw_fsteps(self.states@, s0 as int, c)); }
 //@}
-//@before 1 return ROOT_STATE_IDX;{
+//@before 2 return{
     proof { assert(fmoves == bw_fsteps(self.states@, s0 as int, c)); }
 //@}
 //@before 1 state_id = (&self.states{
